@@ -195,9 +195,9 @@ def atom_models():
     def m_split(ex, c, args):
         v = rda(args[0])
         if FM.is_atom(v):
-            # `help.split('\\n').next()`: the first line of an atom is (a prefix of) the atom; it is
-            # recorded as the atom itself
-            return PyIter("vec_into", Seq((v,)), 0)
+            # `help.split('\\n').next()`: the first line of an atom is a different text from the atom (which may
+            # hold line breaks): recorded as the derived atom `<name>|line1`
+            return PyIter("vec_into", Seq((atom(v.payload[0] + "|line1"),)), 0)
         return MODELS["str::split"](ex, c, args)
     models["str::split"] = m_split
 
@@ -464,7 +464,14 @@ def run_render_job(job, build):
                 out["cex"].append({"kind": "script-malformed", "shell": shell, "why": p, "output": shown, "empty_atoms": empties,
                                    "items": nitems, "ops": ops, "flags": flags, "job": job["id"]})
         else:
-            # line protocol: every candidate with a replacement appears exactly once
+            # line protocol: one record per line - a help text (which may hold line breaks: descriptions of a
+            # dynamic completer arrive verbatim) must be cut at its first line before it is written
+            for p in parts:
+                if type(p) is tuple and isinstance(p[2], str) and re.fullmatch(r"help\d+", p[2]):
+                    out["cex"].append({"kind": "record-split", "shell": shell, "why": "the whole help text %s is written into the line protocol: a line break inside it splits the record and the rest becomes a candidate" % p[2],
+                                       "output": shown, "empty_atoms": empties, "items": nitems, "ops": ops, "flags": flags, "job": job["id"]})
+                    break
+            # every candidate with a replacement appears exactly once
             for i in range(nitems):
                 cnt = sum(1 for p in parts if type(p) is tuple and p[2] == "subst%d" % i)
                 empty = ("empty!subst%d" % i) in empties
@@ -547,7 +554,7 @@ def finish(results, jobs, build, out, tier, seed, wall):
         for c in r.get("cex", []):
             if c["kind"] == "quote-unsafe":
                 out.violation("quote:" + c["bytes"], "Shell(%r) renders as %r: %s" % (c["input"], c["output"], c["why"]), c)
-            elif c["kind"] in ("script-malformed", "candidate-count"):
+            elif c["kind"] in ("script-malformed", "candidate-count", "record-split"):
                 key = finding_key(c) or ("%s:%s:%s" % (c["shell"], c["why"][:60], c["job"]))
                 out.violation(key, "%s renderer, %d candidate(s), completers %s, empty strings %s: %s; output: %r" % (
                     c["shell"], c["items"], c["ops"], c["empty_atoms"], c["why"], c["output"]), c)
